@@ -70,7 +70,10 @@ theorem locate_started_file (f : StartForm) :
     occurrence of the marker starts inside `bin` — looking at `bin` followed by the marker
     itself — every archive `zip` that starts with a byte which is neither white-space nor
     control (a zip archive starts with `P`), and every read schedule: the scan of the packed
-    file returns exactly the offset of the archive, `|bin| + |marker|`. -/
+    file returns exactly the offset of the archive, `|bin| + |marker|`.
+    `hbin` also excludes the marker occurring as a string constant inside the Go binary; for the
+    REAL interpreter built from the tree under test it is checked at run time on the binary itself
+    (correspondence case `realbin`, and `srcmarker=0` in the process cases). -/
 theorem scan_finds_archive (rd : Nat → Nat → Nat) (bin zip : List Nat) (c : Nat) (cs : List Nat)
     (hzip : zip = c :: cs) (hc : isSkip c = false)
     (hbin : ∀ j, j < bin.length → ¬ occ geom.marker (bin ++ geom.marker) j) :
@@ -125,6 +128,29 @@ theorem scan_eq_spec (rd : Nat → Nat → Nat) (data : List Nat) :
   unfold Impl.scan
   rw [Impl.scanLoop_eq_spec geom rd geom_keep_lt_buf geom_keep_covers_marker geom_marker_nonempty data]
   cases Spec.find geom.marker data <;> rfl
+
+/-- **Every partial read is covered by the schedule quantifier.** A read into a slice of `room > 0`
+    bytes with `avail > 0` bytes left returns `readLen room avail want` bytes: always between 1 and
+    `min room avail`, and EVERY such count `k` is produced by some `want` (namely `k`). So `∀ rd` in the
+    theorems ranges over all behaviours of a reader that returns at least one byte per call before
+    the end — full blocks, short reads, EINTR-style interrupted reads, one byte at a time. (Not
+    covered: a read that fails with an error other than EOF — the Go loop then ends silently and
+    RunPackedBinary falls through; declared assumption. `0, nil` reads do not occur with os.File.) -/
+theorem read_schedule_covers_every_partial_read (room avail : Nat) (hr : 0 < room) (ha : 0 < avail) :
+    (∀ want, 1 ≤ Impl.readLen room avail want ∧ Impl.readLen room avail want ≤ min room avail) ∧
+    (∀ k, 1 ≤ k → k ≤ min room avail → Impl.readLen room avail k = k) := by
+  constructor
+  · intro want; unfold Impl.readLen; omega
+  · intro k h1 h2; unfold Impl.readLen; omega
+
+/-- **The result does not depend on how the reads are cut**: any two read schedules give the same
+    scan result on every file. -/
+theorem scan_independent_of_read_schedule (rd₁ rd₂ : Nat → Nat → Nat) (data : List Nat) :
+    Impl.scan geom rd₁ data = Impl.scan geom rd₂ data := by
+  rw [scan_eq_spec rd₁, scan_eq_spec rd₂]
+
+example : Impl.scan geom (fun _ _ => 1) (layout geom.marker [35, 10, 35, 35] [80, 75]) = .found (4 + geom.marker.length) := by
+  decide
 
 /-- **Totality.** On every file and read schedule the loop terminates (never `hang`: every
     iteration consumes input), no slice expression of the loop is out of range (never `panic`: at
